@@ -9,21 +9,27 @@ import typing
 class NT(typing.NamedTuple):
     a: int
     b: datetime.date
+    c: typing.Optional[datetime.date]
 
 
 class NTD(typing.NamedTuple):
     a: int
     b: datetime.date = datetime.date(2000, 1, 1)
+    c: typing.Optional[datetime.date] = None
 
 
 class TD(typing.TypedDict):
     a: int
     b: datetime.date
+    c: typing.Optional[datetime.date]
+    d: typing.NotRequired[typing.Optional[datetime.date]]
 
 
 class TDP(typing.TypedDict, total=False):
     a: int
     b: datetime.date
+    c: typing.Optional[datetime.date]
+    d: typing.Required[typing.Optional[int]]
 
 
 class E(enum.Enum):
